@@ -202,7 +202,7 @@ PROPS = {
             H("H_C05_compareData", "three buffers of 0..3 symbolic 64-bit words", reach=["compared", "equal"], quick=Q, thorough=T),
             H("H_C05_shrinkSteps", "the real shrink() with all its passes on a failing 5-word recording made of two same-label standalone groups of different length (payload words from 3 representatives, both orders), property failing at one site; every accepted candidate strictly smaller than its predecessor, result not larger than the input", reach=["accepted-step", "shrunk"], quick=Q, thorough=T),
             H("H_C05_acceptCallbacks", "the accept step for 4-opcode programs over {return, draw, conditional, Errorf, Fatalf, Skip, two cleanup functions that fail}: failures raised inside cleanup functions (also one after the other) are failure sites of their own", reach=["accepted", "rejected"], sanity_reach=["accepted"], quick=Q, thorough=T),
-            H("H_C05_accept", "pre-state = recording of any failing run of a symbolic 3-opcode program (2 fatal sites, data-dependent site, non-fatal site, panic, skip) on any buffer of <=3 (quick) / <=4 (thorough) words; candidate = any buffer of <=3/<=4 words; one call of the real accept", reach=["accepted", "rejected"], sanity_reach=["accepted"], quick=Q, thorough=TD),
+            H("H_C05_accept", "pre-state = recording of any failing run of a symbolic 3-opcode program (2 fatal sites, data-dependent site, non-fatal site, panic, skip) on any buffer of <=3 words; candidate = any buffer of <=3 words; one call of the real accept from any history counters; thorough: wider opcode alphabet (small-int draws, value-dependent Fatalf message)", reach=["accepted", "rejected"], sanity_reach=["accepted"], quick=Q, thorough=TD),
         ],
         "assumptions": ENGINE_ASSUME + ["dataStr (cache key of rejected candidates) is structural on symbolic words: a spurious cache miss re-runs the candidate with the same result"],
     },
